@@ -5306,3 +5306,657 @@ Proof.
 Qed.
 
 End RemThm2.
+
+(* ---------- route listings (countRoutes, getRouteConflict) ---------- *)
+Definition kids_height (kids : list node) : nat := fold_right (fun c acc => Nat.max (node_height c) acc) 0%nat kids.
+
+Lemma kids_height_le kids c : In c kids -> (node_height c <= kids_height kids)%nat.
+Proof. induction kids as [|x kids IH]; simpl; intros []; subst; try lia. specialize (IH H). lia. Qed.
+
+Lemma flat_map_ext_in {A B} (f g : A -> list B) l : (forall x, In x l -> f x = g x) -> flat_map f l = flat_map g l.
+Proof. induction l as [|x l IH]; simpl; intros H; auto. rewrite (H x), IH; auto. Qed.
+
+Lemma routes_pre_mono : forall n f, (node_height n <= f)%nat -> routes_pre f n = routes_pre (node_height n) n.
+Proof.
+  induction n as [k r kids IH] using node_ind2. intros f L.
+  change (node_height (Node k r kids)) with (S (kids_height kids)) in *.
+  destruct f as [|f]; [lia|]. simpl. f_equal.
+  assert (L' : (kids_height kids <= f)%nat) by lia. clear L.
+  assert (E : forall c, In c kids -> routes_pre f c = routes_pre (kids_height kids) c).
+  { intros c Hc. rewrite Forall_forall in IH. pose proof (kids_height_le _ _ Hc).
+    rewrite (IH c Hc f) by lia. symmetry. apply IH; auto. }
+  apply flat_map_ext_in. exact E.
+Qed.
+
+(* if the listing terminates, it is the pure DFS listing *)
+Lemma h_routes_rep s : forall fuel a n fp r s', rep s a n fp -> h_routes fuel a s = Ok (r, s') -> r = routes_of_node n /\ s' = s.
+Proof.
+  induction fuel as [|f IH]; intros a n fp r s' Hrep H; simpl in H; [discriminate|].
+  destruct n as [k rt kids]. apply rep_unfold in Hrep. destruct Hrep as (o & ch & fps & Ho & Hk & Hr & Hch & Hkids & Hfp).
+  mbind H o2 s1 H1. apply get_node_ok in H1. destruct H1 as [-> Ho2]. assert (o2 = o) by congruence. subst o2.
+  mbind H ch2 s1 H1. apply get_arr_ok in H1. destruct H1 as [-> Hch2]. assert (ch2 = ch) by congruence. subst ch2.
+  mbind H rs s1 H1.
+  assert (X : rs = flat_map routes_of_node kids /\ s1 = s).
+  { clear H Hch Hch2 Hfp. revert kids fps rs s1 Hkids H1. induction ch as [|c ch IHc]; intros [|kd kids] [|fc fps] rs s1 Hkids H1; simpl in Hkids; try tauto.
+    - apply ret_ok in H1. destruct H1 as [-> ->]. auto.
+    - destruct Hkids as [Hc Hrest]. mbind H1 r0 s2 H2. destruct (IH _ _ _ _ _ Hc H2) as [-> ->].
+      mbind H1 more s3 H3. destruct (IHc _ _ _ _ Hrest H3) as [-> ->]. apply ret_ok in H1. destruct H1 as [-> ->]. auto. }
+  destruct X as [-> ->]. apply ret_ok in H. destruct H as [-> ->]. split; auto.
+  symmetry. unfold routes_of_node at 1. change (node_height (Node k rt kids)) with (S (kids_height kids)).
+  cbn [routes_pre nroute nchildren]. rewrite Hr. f_equal.
+  apply flat_map_ext_in. intros c Hc. unfold routes_of_node. apply routes_pre_mono. apply kids_height_le. auto.
+Qed.
+
+(* ---------- truncate ---------- *)
+Lemma new_empty_root_rep k s a s1 :
+  good 1 s -> new_empty_root k s = Ok (a, s1) ->
+  exists e, rep s1 a (empty_root k) [a; e] /\ e = s_next s /\ a = Pos.succ (s_next s) /\ s_next s1 = Pos.succ (Pos.succ (s_next s)) /\
+            (forall y, y < s_next s -> same_at s s1 y) /\ (forall y, find_arr s1 y = find_arr s y \/ y = e) /\
+            meta_same s s1 /\ good 1 s1.
+Proof.
+  intros G H. unfold new_empty_root in H.
+  mbind H e s2 H2.
+  destruct (alloc_arr_ok 1 [] _ _ _ G (Forall_nil _) H2) as (G2 & _ & V2 & _).
+  destruct (alloc_arr_eff _ _ _ _ H2) as (Ee & N2 & Fe & Oe & One & MS2). clear H2.
+  pose proof (fun pf => alloc_node_ok 1 _ _ _ _ G2 pf H) as X. simpl in X. destruct (X V2) as (G3 & _). clear X.
+  destruct (alloc_node_eff _ _ _ _ H) as (En & N3 & Fn & On & Oa & MS3).
+  exists e. spl; auto; try lia.
+  - unfold empty_root. apply rep_unfold. eexists _, [], []. spl; [exact Fn| | | | |]; simpl; auto. rewrite Oa. auto.
+  - intros y Ly. split; [rewrite On by lia; apply One|rewrite Oa; apply Oe; lia].
+  - intros y. destruct (Pos.eq_dec y e) as [->|Hne]; auto. left. rewrite Oa. apply Oe. auto.
+  - eapply meta_same_trans; eauto.
+Qed.
+
+Lemma truncate_methods_step rs size m more :
+  truncate_methods rs size (m :: more) =
+  match method_index rs m with
+  | None => truncate_methods rs size more
+  | Some idx =>
+      match nth_error rs idx with
+      | None => truncate_methods rs size more
+      | Some root =>
+          let size' := (size - Z.of_nat (List.length (routes_of_node root)))%Z in
+          if negb (is_removable m)
+          then truncate_methods (replace_nth rs idx (empty_root (nth idx common_verbs []))) size' more
+          else truncate_methods (remove_nth rs idx) size' more
+      end
+  end.
+Proof. reflexivity. Qed.
+
+Lemma trunc_loop_rep fuel nr : forall methods s l rsl fpsl u s',
+  good 1 s -> find_arr s nr = Some l -> reps s l rsl fpsl -> NoDup (List.concat fpsl) -> ~ In nr (List.concat fpsl) ->
+  nr < s_next s ->
+  trunc_loop fuel nr methods s = Ok (u, s') ->
+  exists l' fpsl',
+    find_arr s' nr = Some l' /\ reps s' l' (fst (truncate_methods rsl (s_size s) methods)) fpsl' /\
+    NoDup (List.concat fpsl') /\ ~ In nr (List.concat fpsl') /\
+    s_size s' = snd (truncate_methods rsl (s_size s) methods) /\ good 1 s' /\
+    (forall y, y < s_next s -> y <> nr -> same_at s s' y) /\ s_next s <= s_next s' /\
+    s_root s' = s_root s /\ s_maxp s' = s_maxp s /\ s_depth s' = s_depth s /\
+    (forall y, In y (List.concat fpsl') -> In y (List.concat fpsl) \/ s_next s <= y).
+Proof.
+  induction methods as [|m more IH]; intros s l rsl fpsl u s' G Hnr Hr ND Nnr Vnr H; simpl trunc_loop in H.
+  - apply ret_ok in H. destruct H as [_ ->]. exists l, fpsl. simpl. spl; auto; try lia. intros; split; reflexivity.
+  - rewrite truncate_methods_step.
+    mbind H idx s0 H0. rewrite (method_index_at_rep _ _ _ _ _ m Hnr Hr) in H0. inversion H0; subst idx s0; clear H0.
+    destruct (method_index rsl m) as [i|]; [|eauto].
+    mbind H l2 s0 H0. apply get_arr_ok in H0. destruct H0 as [-> Hl2]. assert (l2 = l) by congruence. subst l2.
+    mbind H root s0 H0. apply opt_get_ok in H0. destruct H0 as [Hroot ->].
+    destruct (all3_nth_a _ _ _ _ _ _ Hr Hroot) as (rootn & fr & Hrootn & Hfr & Hrep). rewrite Hrootn.
+    mbind H rts s0 H0. destruct (h_routes_rep _ _ _ _ _ _ _ Hrep H0) as [-> ->]. clear H0.
+    cbn [bind bump_size] in H. cbv zeta.
+    match type of H with _ ?sm = _ => set (sb := sm) in * end.
+    assert (Gb : good 1 sb) by (unfold sb; apply good_set_meta; auto).
+    pose proof (good1_wf _ G) as Wf.
+    assert (Lall : Forall (V s) (List.concat fpsl)) by (eapply reps_lt; eauto). rewrite Forall_forall in Lall.
+    mbind H w1 s1 H1.
+    assert (Zb : s_size sb = (s_size s - Z.of_nat (List.length (routes_of_node rootn)))%Z) by (unfold sb; simpl; lia).
+    destruct (negb (is_removable m)).
+    + (* a common verb: nr[i] = new(node) *)
+      mbind H1 nn s2 H2.
+      destruct (new_empty_root_rep _ _ _ _ Gb H2) as (e & Rnn & Ee & Enn & N2 & Old2 & Oarr2 & MS2 & G2). clear H2.
+      assert (Vnn : V s2 nn) by (unfold V; lia).
+      destruct (write_slot_ok 1 _ _ _ _ _ _ G2 (Pos.le_1_l nr) Vnn H1) as (G3 & _).
+      destruct (write_slot_eff _ _ _ _ _ _ H1) as (l3 & Hl3 & Li & FW & OW & NW & NxW & MSW). clear H1.
+      assert (Nb : s_next sb = s_next s) by reflexivity.
+      assert (Hnr2 : find_arr s2 nr = Some l).
+      { rewrite (proj2 (Old2 nr ltac:(rewrite Nb; exact Vnr))). exact Hnr. }
+      assert (l3 = l) by congruence. subst l3.
+      assert (Old3 : forall y, y < s_next s -> y <> nr -> same_at s s1 y).
+      { intros y Ly Hne. eapply same_at_trans; [split; reflexivity|]. eapply same_at_trans; [apply Old2; rewrite Nb; auto|].
+        split; [apply NW|apply OW; auto]. }
+      assert (Rnn1 : rep s1 nn (empty_root (nth i common_verbs [])) [nn; e]).
+      { eapply rep_frame; [exact Rnn|]. intros y Hy. split; [apply NW|apply OW]. simpl in Hy. lia. }
+      assert (Hr1 : reps s1 (set_nth l i nn) (set_nth rsl i (empty_root (nth i common_verbs []))) (set_nth fpsl i [nn; e])).
+      { apply all3_set; auto. eapply reps_frame; [exact Hr|]. intros y Hy. apply Old3.
+        - apply Lall. auto. - intros ->. auto. }
+      assert (ND1 : NoDup (List.concat (set_nth fpsl i [nn; e]))).
+      { eapply NoDup_concat_set_nth; eauto.
+        - constructor; [simpl; lia|]. constructor; auto. constructor.
+        - intros y [<-|[<-|[]]]; right; intros Hin; apply Lall in Hin; unfold V in Hin; lia. }
+      assert (Nnr1 : ~ In nr (List.concat (set_nth fpsl i [nn; e]))).
+      { intros Hin. destruct (in_concat_set_nth _ _ _ _ Hin) as [[E|[E|[]]]|Hin']; auto; lia. }
+      destruct MS2 as (A1 & A2 & A3 & A4 & A5). destruct MSW as (B1 & B2 & B3 & B4 & B5).
+      destruct (IH s1 (set_nth l i nn) _ _ u s' G3 FW Hr1 ND1 Nnr1 ltac:(lia) H)
+        as (l' & fpsl' & C1 & C2 & C3 & C4 & C5 & C6 & C7 & C8 & C9 & C10 & C11 & C12).
+      exists l', fpsl'. rewrite <- set_nth_replace.
+      assert (Zs1 : s_size s1 = (s_size s - Z.of_nat (List.length (routes_of_node rootn)))%Z) by congruence.
+      rewrite Zs1 in C2, C5. spl; auto; try congruence; try lia.
+      * intros y Ly Hne. eapply same_at_trans; [apply Old3; auto|]. apply C7; auto. lia.
+      * unfold sb in *. simpl in *. congruence.
+      * unfold sb in *. simpl in *. congruence.
+      * unfold sb in *. simpl in *. congruence.
+      * intros y Hy. destruct (C12 y Hy) as [Hin|Ly]; [|right; lia].
+        destruct (in_concat_set_nth _ _ _ _ Hin) as [[E|[E|[]]]|Hin']; auto; right; lia.
+    + (* a custom method: the root is cut out of nr *)
+      assert (Fd : Forall (V sb) (del_nth l i)).
+      { apply Forall_del_nth. apply (wf_arr _ Wf _ _ Hnr). }
+      destruct (write_arr_ok 1 _ _ _ _ _ Gb (Pos.le_1_l nr) Fd H1) as (G3 & _).
+      destruct (write_arr_eff _ _ _ _ _ H1) as (_ & FW & OW & NW & NxW & MSW). clear H1.
+      assert (Old3 : forall y, y <> nr -> same_at s s1 y).
+      { intros y Hne. eapply same_at_trans; [split; reflexivity|]. split; [apply NW|apply OW; auto]. }
+      assert (Hr1 : reps s1 (del_nth l i) (del_nth rsl i) (del_nth fpsl i)).
+      { eapply reps_frame; [apply all3_del; exact Hr|]. intros y Hy. apply Old3. intros ->. apply Nnr. eapply in_concat_del_nth; eauto. }
+      assert (Nnr1 : ~ In nr (List.concat (del_nth fpsl i))) by (intros Hin; apply Nnr; eapply in_concat_del_nth; eauto).
+      destruct MSW as (B1 & B2 & B3 & B4 & B5).
+      destruct (IH s1 (del_nth l i) _ _ u s' G3 FW Hr1 (NoDup_concat_del_nth _ i ND) Nnr1 ltac:(unfold sb in *; simpl in *; lia) H)
+        as (l' & fpsl' & C1 & C2 & C3 & C4 & C5 & C6 & C7 & C8 & C9 & C10 & C11 & C12).
+      exists l', fpsl'. rewrite <- del_nth_remove.
+      assert (Zs1 : s_size s1 = (s_size s - Z.of_nat (List.length (routes_of_node rootn)))%Z) by congruence.
+      rewrite Zs1 in C2, C5. unfold sb in *. simpl in NxW, B1, B3, B4.
+      spl; auto; try congruence; try lia.
+      * intros y Ly Hne. eapply same_at_trans; [apply Old3; auto|]. apply C7; auto. lia.
+      * intros y Hy. destruct (C12 y Hy) as [Hin|Ly]; [|right; lia]. left. eapply in_concat_del_nth; eauto.
+Qed.
+
+Lemma new_empty_roots_rep ks : forall s l s1,
+  good 1 s -> new_empty_roots ks s = Ok (l, s1) ->
+  exists fps, reps s1 l (map empty_root ks) fps /\ NoDup (List.concat fps) /\
+    (forall y, In y (List.concat fps) -> s_next s <= y /\ y < s_next s1) /\
+    (forall y, y < s_next s -> same_at s s1 y) /\ s_next s <= s_next s1 /\ meta_same s s1 /\ good 1 s1.
+Proof.
+  induction ks as [|k ks IH]; intros s l s1 G H; simpl in H.
+  - apply ret_ok in H. destruct H as [-> ->]. exists []. simpl. spl; auto; try lia;
+      try constructor; try (intros y []); try (intros; split; reflexivity); try apply meta_same_refl.
+  - mbind H a s2 H2. destruct (new_empty_root_rep _ _ _ _ G H2) as (e & Ra & Ee & Ea & N2 & Old2 & _ & MS2 & G2). clear H2.
+    mbind H more s3 H3. destruct (IH _ _ _ G2 H3) as (fps & Rm & NDm & Fm & Old3 & N3 & MS3 & G3). clear H3.
+    apply ret_ok in H. destruct H as [-> ->].
+    exists ([a; e] :: fps). simpl. spl; auto; try lia.
+    + apply (rep_frame s2 s3 (empty_root k) a [a; e] Ra). intros y Hy. apply Old3. simpl in Hy. lia.
+    + constructor; [|constructor].
+      * intros [E|Hin]; [lia|]. apply Fm in Hin. lia.
+      * intros Hin. apply Fm in Hin. lia.
+      * auto.
+    + intros y [<-|[<-|Hin]]; try lia. apply Fm in Hin. lia.
+    + intros y Ly. eapply same_at_trans; [apply Old2; auto|]. apply Old3. lia.
+    + eapply meta_same_trans; eauto.
+Qed.
+
+Lemma roots_wf_init : roots_wf (map empty_root common_verbs).
+Proof.
+  assert (K : keys_wf (map nkey (map empty_root common_verbs))).
+  { unfold keys_wf. simpl. spl; auto; try constructor; try tauto. }
+  destruct (keys_wf_roots_ok _ K) as [RO L]. split; [|split]; auto.
+  intros r Hr. simpl in Hr. destruct Hr as [<-|[<-|[<-|[<-|[]]]]]; reflexivity.
+Qed.
+
+Lemma truncate_methods_wf methods : forall rs size, roots_wf rs -> roots_wf (fst (truncate_methods rs size methods)).
+Proof.
+  induction methods as [|m more IH]; intros rs size WF; [exact WF|].
+  rewrite truncate_methods_step. destruct (method_index rs m) as [i|] eqn:MI; auto.
+  destruct (nth_error rs i) as [root|] eqn:Hroot; auto. cbv zeta.
+  destruct (is_removable m) eqn:Erm; simpl negb; cbv iota; apply IH.
+  - rewrite <- del_nth_remove. apply roots_wf_del; auto. eapply removable_index; eauto.
+  - rewrite <- set_nth_replace. eapply roots_wf_set; eauto.
+    destruct WF as (RO & L & RN). cbn [empty_root nkey].
+    assert (Li : (i < 4)%nat).
+    { destruct (Nat.lt_ge_cases i 4) as [?|Lge]; auto. exfalso.
+      destruct (method_index_custom _ _ _ MI Lge) as (r' & Hr' & Hk').
+      pose proof (roots_ok_keys rs RO L) as (_ & _ & RM).
+      assert (In (nkey r') (skipn 4 (map nkey rs))).
+      { rewrite skipn_map. apply in_map. apply (nth_error_In _ (i - 4)). rewrite nth_skipn. replace (4 + (i - 4))%nat with i by lia. auto. }
+      apply RM in H. congruence. }
+    symmetry. apply (method_index_common _ rs). + apply RO. auto. + auto.
+Qed.
+
+Section TruncThm.
+Variable evict : N -> list addr -> list addr.
+
+Theorem h_truncate_refines fuel methods s T u s' :
+  good 1 s -> trep s T -> roots_wf (t_roots T) ->
+  h_truncate fuel methods s = Ok (u, s') ->
+  good 1 s' /\ trep s' (truncate T methods) /\ roots_wf (t_roots (truncate T methods)).
+Proof.
+  intros G TR WF H. apply trep_roots in TR. destruct TR as ((rs & fps & Hrs & Hr & ND & NR) & Zs & Ps & Ds).
+  pose proof (good1_wf _ G) as Wf.
+  unfold h_truncate in H. unfold truncate.
+  destruct methods as [|m ms].
+  - mbind H l s1 H1. destruct (new_empty_roots_rep _ _ _ _ G H1) as (fps1 & R1 & ND1 & F1 & Old1 & N1 & MS1 & G1). clear H1.
+    mbind H nr s2 H2.
+    assert (Vl : Forall (V s1) l).
+    { clear -R1 F1. unfold reps in R1. revert R1 F1. generalize (map empty_root common_verbs) as ns. revert fps1.
+      induction l as [|x l IH]; intros [|f fps] [|n ns] R F; simpl in R; try tauto; constructor.
+      - destruct R as [Rx _]. destruct (rep_head _ _ _ _ Rx) as (t & ->). apply (F x). simpl. auto.
+      - destruct R as [_ R]. eapply IH; eauto. intros y Hy. apply F. simpl. apply in_or_app. auto. }
+    destruct (alloc_arr_ok 1 _ _ _ _ G1 Vl H2) as (G2 & _ & V2 & _).
+    destruct (alloc_arr_eff _ _ _ _ H2) as (Enr & N2 & Fnr & Onr & Onn & MS2). clear H2.
+    mbind H w1 s3 H3. destruct (set_root_ok 1 _ _ _ _ G2 V2 H3) as (G3 & _).
+    destruct (set_root_eff _ _ _ _ H3) as (HS3 & R3 & Z3 & P3 & D3 & C3). clear H3.
+    destruct (put_size_ok 1 _ _ _ _ G3 H) as (G4 & _).
+    unfold put_size in H. inversion H; subst u s'; clear H.
+    split; auto. split; [|apply roots_wf_init].
+    destruct MS1 as (A1 & A2 & A3 & A4 & A5). destruct MS2 as (B1 & B2 & B3 & B4 & B5).
+    assert (RR3 : roots_rep s3 (map empty_root common_verbs)).
+    { exists l, fps1. spl; auto.
+      + rewrite R3. rewrite (proj2 (heap_same_at _ _ nr HS3)). auto.
+      + eapply reps_frame; [exact R1|]. intros y Hy. eapply same_at_trans; [|apply heap_same_at; exact HS3].
+        split; [apply Onn|apply Onr]. apply F1 in Hy. lia.
+      + rewrite R3. intros Hin. apply F1 in Hin. lia. }
+    apply trep_roots. simpl. spl; auto; try congruence.
+  - mbind H rs' s0 H0. unfold get_roots, bind, get_root, get_arr in H0. unfold find_arr in Hrs. rewrite Hrs in H0.
+    inversion H0; subst rs' s0; clear H0. fold (find_arr s (s_root s)) in Hrs.
+    mbind H nr s1 H1.
+    destruct (wf_arr _ Wf _ _ Hrs) as [VR Frs].
+    destruct (alloc_arr_ok 1 _ _ _ _ G Frs H1) as (G1 & _ & V1 & _).
+    destruct (alloc_arr_eff _ _ _ _ H1) as (Enr & N1 & Fnr & Onr & Onn & MS1). clear H1.
+    assert (Lall : Forall (V s) (List.concat fps)) by (eapply reps_lt; eauto). rewrite Forall_forall in Lall.
+    assert (Hr1 : reps s1 rs (t_roots T) fps).
+    { eapply reps_frame; [exact Hr|]. intros y Hy. split; [apply Onn|apply Onr]. apply Lall in Hy. unfold V in Hy. lia. }
+    assert (Nnr : ~ In nr (List.concat fps)) by (intros Hin; apply Lall in Hin; unfold V in Hin; lia).
+    mbind H w1 s2 H2.
+    destruct (trunc_loop_rep fuel nr (m :: ms) s1 rs (t_roots T) fps w1 s2 G1 Fnr Hr1 ND Nnr ltac:(lia) H2)
+      as (l' & fpsl' & C1 & C2 & C3 & C4 & C5 & C6 & C7 & C8 & C9 & C10 & C11 & C12). clear H2.
+    assert (V2 : V s2 nr) by (unfold V in *; lia).
+    destruct (set_root_ok 1 _ _ _ _ C6 V2 H) as (G3 & _).
+    destruct (set_root_eff _ _ _ _ H) as (HS3 & R3 & Z3 & P3 & D3 & Ch3). clear H.
+    destruct MS1 as (A1 & A2 & A3 & A4 & A5).
+    rewrite A2, Zs in C2, C5.
+    destruct (truncate_methods (t_roots T) (t_size T) (m :: ms)) as [rs'' sz''] eqn:ET. simpl in C2, C5.
+    split; auto. split.
+    + apply trep_roots. simpl. spl; auto; try congruence.
+      exists l', fpsl'. spl; auto.
+      * rewrite R3, (proj2 (heap_same_at _ _ nr HS3)). auto.
+      * eapply reps_frame; [exact C2|]. intros; apply heap_same_at; auto.
+      * rewrite R3. auto.
+    + simpl. pose proof (truncate_methods_wf (m :: ms) (t_roots T) (t_size T) WF) as X. rewrite ET in X. exact X.
+Qed.
+
+End TruncThm.
+
+(* ================= Part 4: histories refine the pure histories ================= *)
+Lemma good_weaken m s : good m s -> good 1 s.
+Proof.
+  intros [W M Wr]. constructor; auto; try lia.
+  eapply Forall_impl; [|exact Wr]. intros a [L (o & Ho & La)]. split; [lia|]. exists o. split; auto. lia.
+Qed.
+
+Lemma rep_closed m s : closed m s -> forall n a fp, a < m -> rep s a n fp -> Forall (fun x => x < m) fp.
+Proof.
+  intros [C1 C2]. induction n as [k r kids IH] using node_ind2. intros a fp La H.
+  apply rep_unfold in H. destruct H as (o & ch & fps & Ho & Hk & Hr & Hch & Hkids & ->).
+  pose proof (C1 _ _ La Ho) as LA. pose proof (C2 _ _ LA Hch) as Fch.
+  constructor; auto. constructor; auto.
+  clear Ho Hch. unfold reps in Hkids. revert ch fps Hkids Fch.
+  induction IH as [|kd kids Hkd Hrest IHk]; intros [|c ch] [|f fps] Hkids Fch; simpl in *; try tauto; auto.
+  destruct Hkids as [H1 H2]. inversion Fch; subst. apply Forall_app. split; eauto.
+Qed.
+
+Definition prep (s : st) (p : pubt) (T : txn) : Prop :=
+  (exists rs fps, find_arr s (p_root p) = Some rs /\ reps s rs (t_roots T) fps /\
+                  NoDup (List.concat fps) /\ ~ In (p_root p) (List.concat fps)) /\
+  p_size p = t_size T /\ p_maxp p = t_maxparams T /\ p_depth p = t_depth T.
+
+Lemma prep_ext m s s' p T : closed m s -> p_root p < m -> ext m s s' -> prep s p T -> prep s' p T.
+Proof.
+  intros C L E ((rs & fps & Hrs & Hr & ND & NR) & Z). split; auto.
+  exists rs, fps. spl; auto.
+  - rewrite (e_arr _ _ _ E) by auto. auto.
+  - pose proof (proj2 C _ _ L Hrs) as Frs.
+    clear Hrs NR ND. unfold reps in *. revert fps Hr Frs. generalize (t_roots T) as ns.
+    induction rs as [|a rs IH]; intros [|n ns] [|f fps] Hr Frs; simpl in *; try tauto.
+    destruct Hr as [H1 H2]. inversion Frs; subst. split; [|apply IH; auto].
+    pose proof (rep_closed m s C _ _ _ H3 H1) as Ff. rewrite Forall_forall in Ff.
+    eapply rep_frame; [exact H1|]. intros x Hx. split; [apply (e_node _ _ _ E)|apply (e_arr _ _ _ E)]; auto.
+Qed.
+
+Lemma prep_begin s p c T : prep s p T -> trep (begin_st s p c) T.
+Proof.
+  intros ((rs & fps & Hrs & Hr & ND & NR) & Z & P & D). apply trep_roots. simpl. spl; auto.
+  exists rs, fps. spl; auto. eapply reps_frame; [exact Hr|]. intros; split; reflexivity.
+Qed.
+
+Lemma trep_pub s T : trep s T -> prep (reset_wr s) (pub_of s) T.
+Proof.
+  intros TR. apply trep_roots in TR. destruct TR as ((rs & fps & Hrs & Hr & ND & NR) & Z & P & D).
+  split; [|simpl; auto]. exists rs, fps. simpl. spl; auto. eapply reps_frame; [exact Hr|]. intros; split; reflexivity.
+Qed.
+
+Lemma prep_same_heap s s' p T : s_nodes s' = s_nodes s -> s_arrs s' = s_arrs s -> prep s p T -> prep s' p T.
+Proof.
+  intros Hn Ha ((rs & fps & Hrs & Hr & ND & NR) & Z). split; auto. exists rs, fps. spl; auto.
+  - unfold find_arr in *. rewrite Ha. auto.
+  - eapply reps_frame; [exact Hr|]. intros x _. unfold same_at, find_node, find_arr. rewrite Hn, Ha. auto.
+Qed.
+
+Lemma trep_same_heap s s' T :
+  s_nodes s' = s_nodes s -> s_arrs s' = s_arrs s -> s_root s' = s_root s -> s_size s' = s_size s ->
+  s_maxp s' = s_maxp s -> s_depth s' = s_depth s -> trep s T -> trep s' T.
+Proof.
+  intros Hn Ha Hr0 Hz Hp Hd TR. apply trep_roots in TR. destruct TR as ((rs & fps & Hrs & Hr & ND & NR) & Z & P & D).
+  apply trep_roots. spl; try congruence. exists rs, fps. rewrite Hr0. spl; auto.
+  - unfold find_arr in *. rewrite Ha. auto.
+  - eapply reps_frame; [exact Hr|]. intros x _. unfold same_at, find_node, find_arr. rewrite Hn, Ha. auto.
+Qed.
+
+Lemma upd_key f rt n rest n' : upd f rt n rest = Some n' -> nkey n' = nkey n /\ nroute n' = nroute n.
+Proof.
+  destruct f as [|f]; [discriminate|]. destruct rest as [|c rest0]; [discriminate|]. destruct n as [k r kids].
+  rewrite upd_step. destruct (find_child_from 0 c kids) as [i|]; [|discriminate].
+  destruct (nth_error kids i) as [c1|]; [|discriminate].
+  destruct (upd_child f rt c1 (c :: rest0)); [|discriminate]. simpl. intros H; inversion H; subst. auto.
+Qed.
+
+Section World.
+Variable evict : N -> list addr -> list addr.
+Hypothesis evict_sub : forall c w a, In a (evict c w) -> In a w.
+Variable fuel : nat.
+
+(* one operation of the open transaction against the pure operation *)
+Lemma run_op_refines o s T res s' :
+  good 1 s -> trep s T -> roots_wf (t_roots T) ->
+  run_op evict fuel o s = Ok (res, s') ->
+  good 1 s' /\ trep s' (fst (fst (pure_op T o))) /\ roots_wf (t_roots (fst (fst (pure_op T o)))) /\
+  res = (snd (fst (pure_op T o)), snd (pure_op T o)).
+Proof.
+  intros G TR WF H. destruct o as [m pat valid psl hs rid|m pat valid psl hs rid|m pat valid|ms]; simpl in H; simpl pure_op.
+  - destruct (negb (valid_method_handle m) || negb valid)%bool.
+    + apply ret_ok in H. destruct H as [-> ->]. simpl. auto.
+    + mbind H out s1 H1.
+      destruct (h_insert_refines evict evict_sub m (mk_ri pat rid psl hs) s T out s1 G TR WF H1) as (G1 & P).
+      destruct (insert T m (mk_ri pat rid psl hs)) as [T'|ex|ps|].
+      * destruct P as (-> & TR' & WF'). apply ret_ok in H. destruct H as [-> ->]. simpl. auto.
+      * destruct P as (-> & TR'). apply ret_ok in H. destruct H as [-> ->]. simpl. auto.
+      * destruct P as (a & cn & fpa & -> & Ra & Rc & TR').
+        mbind H rts s2 H2. destruct (h_routes_rep _ _ _ _ _ _ _ Ra H2) as [-> ->].
+        apply ret_ok in H. destruct H as [-> ->]. simpl. unfold route_conflict in Rc. rewrite Rc. auto.
+      * destruct P.
+  - destruct (is_nil m || negb valid)%bool.
+    + apply ret_ok in H. destruct H as [-> ->]. simpl. auto.
+    + mbind H b s1 H1.
+      destruct (h_update_ok evict evict_sub 1 _ _ _ _ _ G H1) as (G1 & _).
+      pose proof (h_update_refines evict evict_sub m (mk_ri pat rid psl hs) s T b s1 G TR (proj1 WF) H1) as P.
+      apply ret_ok in H. destruct H as [-> ->].
+      unfold update in *. destruct (method_index (t_roots T) m) as [i|]; [|destruct P as (-> & TR'); simpl; auto].
+      destruct (nth_error (t_roots T) i) as [root|] eqn:Hroot; [|destruct P as (-> & TR'); simpl; auto].
+      destruct (upd _ _ root _) as [root'|] eqn:EU; [|destruct P as (-> & TR'); simpl; auto].
+      destruct P as (-> & TR'). simpl. spl; auto.
+      destruct (upd_key _ _ _ _ _ EU) as [K1 K2]. rewrite <- set_nth_replace. eapply roots_wf_set; eauto.
+      rewrite K2. destruct WF as (_ & _ & RN). apply RN. eapply nth_error_In; eauto.
+  - destruct (is_nil m || negb valid)%bool.
+    + apply ret_ok in H. destruct H as [-> ->]. simpl. auto.
+    + mbind H r s1 H1.
+      destruct (h_remove_refines evict evict_sub m pat s T r s1 G TR WF H1) as (G1 & P).
+      destruct (remove T m pat) as [T' rr|].
+      * destruct P as (-> & TR' & WF'). apply ret_ok in H. destruct H as [-> ->]. simpl. auto.
+      * destruct P as (-> & TR'). apply ret_ok in H. destruct H as [-> ->]. simpl. auto.
+  - mbind H u s1 H1. destruct (h_truncate_refines fuel ms s T u s1 G TR WF H1) as (G1 & TR' & WF').
+    apply ret_ok in H. destruct H as [-> ->]. simpl. auto.
+Qed.
+
+End World.
+
+Definition wrel (w : world) (q : pworld) : Prop :=
+  (exists m, winv m w) /\
+  prep (w_st w) (w_pub w) (q_pub q) /\ roots_wf (t_roots (q_pub q)) /\
+  (if w_open w then exists T, q_cur q = Some T /\ trep (w_st w) T /\ roots_wf (t_roots T) else q_cur q = None).
+
+Section World2.
+Variable evict : N -> list addr -> list addr.
+Hypothesis evict_sub : forall c w a, In a (evict c w) -> In a w.
+Variable fuel : nat.
+
+Lemma step_refines w q e w' out rm :
+  wrel w q -> step evict fuel true w e = (w', out, rm) -> out <> WPanic -> out <> WOof ->
+  exists q', pstep q e = (q', out, rm) /\ wrel w' q'.
+Proof.
+  intros ((m & I) & PR & WFp & CUR) H NP NO.
+  destruct (step_inv evict evict_sub fuel m w e I) as (m' & Lm & I' & E & _).
+  rewrite H in I', E. simpl in I', E.
+  pose proof (wi_good _ _ I) as Gm. pose proof (good_weaken _ _ Gm) as G1.
+  pose proof (wi_closed _ _ I) as Cl. pose proof (wi_pub _ _ I) as Lp.
+  assert (PR' : prep (w_st w') (w_pub w) (q_pub q)) by (eapply prep_ext; eauto).
+  destruct w as [s pub opn handed]. simpl in *.
+  destruct e as [| | |o|o| | |]; simpl in H.
+  - (* EBegin *)
+    destruct opn.
+    + inversion H; subst. destruct CUR as (T & HT & TR & WFT). exists q. simpl. rewrite HT. split; auto.
+      split; [eauto|]. simpl. spl; auto. eauto.
+    + inversion H; subst. simpl. rewrite CUR. eexists. split; [reflexivity|].
+      split; [eauto|]. simpl. spl; auto; try (eapply prep_same_heap; [| |exact PR]; reflexivity).
+      exists (q_pub q). spl; auto. apply prep_begin. auto.
+  - (* ECommit *)
+    destruct opn.
+    + inversion H; subst. destruct CUR as (T & HT & TR & WFT). simpl. rewrite HT. eexists. split; [reflexivity|].
+      split; [eauto|]. simpl. spl; auto. apply trep_pub. auto.
+    + inversion H; subst. simpl. rewrite CUR. eexists. split; [reflexivity|]. split; [eauto|]. simpl. spl; auto.
+  - (* EAbort *)
+    inversion H; subst. simpl. eexists. split; [reflexivity|]. split; [eauto|]. simpl. spl; auto.
+  - (* EOp *)
+    destruct opn.
+    + destruct CUR as (T & HT & TR & WFT). simpl. rewrite HT.
+      destruct (run_op evict fuel o s) as [[[out0 rm0] s1]| |] eqn:R.
+      * inversion H; subst. destruct (run_op_refines evict evict_sub fuel o s T _ _ G1 TR WFT R) as (G' & TR' & WF' & Eres).
+        destruct (pure_op T o) as [[T' out'] rm']. simpl in *. inversion Eres; subst.
+        eexists. split; [reflexivity|]. split; [eauto|]. simpl. spl; auto. eauto.
+      * inversion H; subst. congruence.
+      * inversion H; subst. congruence.
+    + inversion H; subst. simpl. rewrite CUR. eexists. split; [reflexivity|]. split; [eauto|]. simpl. spl; auto.
+  - (* EDirect *)
+    destruct opn.
+    + inversion H; subst. destruct CUR as (T & HT & TR & WFT). simpl. rewrite HT. eexists. split; [reflexivity|].
+      split; [eauto|]. simpl. spl; auto. eauto.
+    + simpl. rewrite CUR.
+      assert (G0 : good 1 (begin_st s pub (direct_cache o))).
+      { apply (good_weaken m). apply good_begin; auto. }
+      pose proof (prep_begin s pub (direct_cache o) _ PR) as TR0.
+      destruct (run_op evict fuel o (begin_st s pub (direct_cache o))) as [[[out0 rm0] s1]| |] eqn:R.
+      * destruct (run_op_refines evict evict_sub fuel o _ (q_pub q) _ _ G0 TR0 WFp R) as (G' & TR' & WF' & Eres).
+        destruct (pure_op (q_pub q) o) as [[T' out'] rm']. simpl in *. inversion Eres; subst out0 rm0.
+        destruct out'; inversion H; subst; (eexists; split; [reflexivity|]); (split; [eauto|]); simpl; spl; auto.
+        apply trep_pub. auto.
+      * inversion H; subst. congruence.
+      * inversion H; subst. congruence.
+  - (* ESnapIter *)
+    destruct opn.
+    + inversion H; subst. destruct CUR as (T & HT & TR & WFT). simpl. rewrite HT. eexists. split; [reflexivity|].
+      split; [eauto|]. simpl. spl; auto. exists T. spl; auto. eapply trep_same_heap; [| | | | | |exact TR]; reflexivity.
+    + inversion H; subst. simpl. rewrite CUR. eexists. split; [reflexivity|]. split; [eauto|]. simpl. spl; auto.
+  - (* ESnapClone *)
+    destruct opn.
+    + inversion H; subst. destruct CUR as (T & HT & TR & WFT). simpl. rewrite HT. eexists. split; [reflexivity|].
+      split; [eauto|]. simpl. spl; auto. exists T. spl; auto. eapply trep_same_heap; [| | | | | |exact TR]; reflexivity.
+    + inversion H; subst. simpl. rewrite CUR. eexists. split; [reflexivity|]. split; [eauto|]. simpl. spl; auto.
+  - (* EObsPub *)
+    inversion H; subst. simpl. eexists. split; [reflexivity|]. split; [eauto|]. simpl. spl; auto.
+Qed.
+
+End World2.
+
+(* ---------- whole histories ---------- *)
+Section World3.
+Variable evict : N -> list addr -> list addr.
+Hypothesis evict_sub : forall c w a, In a (evict c w) -> In a w.
+Variable fuel : nat.
+
+(* what the callers saw, step by step *)
+Fixpoint trace (w : world) (es : list ev) : list (wout * option N) :=
+  match es with
+  | [] => []
+  | e :: r => let '(w', out, rm) := step evict fuel true w e in (out, rm) :: trace w' r
+  end.
+Fixpoint ptrace (q : pworld) (es : list ev) : list (wout * option N) :=
+  match es with
+  | [] => []
+  | e :: r => let '(q', out, rm) := pstep q e in (out, rm) :: ptrace q' r
+  end.
+
+(* the model never hit a Go panic (nil dereference, failed index) nor ran out of fuel *)
+Definition clean (w : world) (es : list ev) : Prop :=
+  Forall (fun o => fst o <> WPanic /\ fst o <> WOof) (trace w es).
+
+Lemma run_refines es : forall w q, wrel w q -> clean w es ->
+  wrel (run evict fuel true w es) (prun q es) /\ trace w es = ptrace q es.
+Proof.
+  induction es as [|e r IH]; intros w q R C; simpl; auto.
+  unfold clean in C. simpl in C.
+  destruct (step evict fuel true w e) as [[w' out] rm] eqn:S. inversion C as [|? ? [NP NO] C']; subst. simpl in NP, NO.
+  destruct (step_refines evict evict_sub fuel w q e w' out rm R S NP NO) as (q' & PS & R').
+  rewrite PS. simpl. destruct (IH w' q' R' C') as [X Y]. split; auto. f_equal. auto.
+Qed.
+
+End World3.
+
+Lemma prep_init : prep init_st (pub_of init_st) empty_txn.
+Proof.
+  pose proof init_run as H.
+  mbind H l s1 H1. destruct (new_empty_roots_rep _ _ _ _ good_empty H1) as (fps1 & R1 & ND1 & F1 & Old1 & N1 & MS1 & G1). clear H1.
+  mbind H nr s2 H2.
+  destruct (alloc_arr_eff _ _ _ _ H2) as (Enr & N2 & Fnr & Onr & Onn & MS2). clear H2.
+  destruct (set_root_eff _ _ _ _ H) as (HS3 & R3 & Z3 & P3 & D3 & C3). clear H.
+  split; [|vm_compute; auto].
+  exists l, fps1. change (p_root (pub_of init_st)) with (s_root init_st). change (t_roots empty_txn) with (map empty_root common_verbs).
+  spl; auto.
+  - rewrite R3. rewrite (proj2 (heap_same_at _ _ nr HS3)). auto.
+  - eapply reps_frame; [exact R1|]. intros y Hy. eapply same_at_trans; [|apply heap_same_at; exact HS3].
+    split; [apply Onn|apply Onr]. apply F1 in Hy. lia.
+  - rewrite R3. intros Hin. apply F1 in Hin. lia.
+Qed.
+
+Lemma wrel_init : wrel init_world init_pworld.
+Proof.
+  split; [exists (s_next init_st); apply winv_init|]. simpl. spl; auto.
+  - apply prep_init. - apply roots_wf_init.
+Qed.
+
+(* ---------- abs: the function reads what rep relates ---------- *)
+Lemma abs_of_rep s : forall n a fp f, rep s a n fp -> (node_height n <= f)%nat -> abs_node f s a = Some n.
+Proof.
+  induction n as [k r kids IH] using node_ind2. intros a fp f H L.
+  change (node_height (Node k r kids)) with (S (kids_height kids)) in L.
+  destruct f as [|f]; [lia|]. apply rep_unfold in H. destruct H as (o & ch & fps & Ho & Hk & Hr & Hch & Hkids & _).
+  simpl. rewrite Ho, Hch.
+  assert (X : (fix go (l : list addr) : option (list node) :=
+                 match l with
+                 | [] => Some []
+                 | x :: t => match abs_node f s x, go t with Some n, Some r => Some (n :: r) | _, _ => None end
+                 end) ch = Some kids).
+  { assert (L' : (kids_height kids <= f)%nat) by lia. clear L Ho Hch.
+    unfold reps in Hkids. revert ch fps Hkids L'. induction IH as [|kd kids Hkd Hrest IHk]; intros [|c ch] [|fc fps] Hkids L'; simpl in *; try tauto.
+    destruct Hkids as [H1 H2]. rewrite (Hkd c fc f H1) by lia. rewrite (IHk ch fps H2) by lia. reflexivity. }
+  rewrite X. rewrite Hk, Hr. reflexivity.
+Qed.
+
+Definition roots_height (rs : list node) : nat := kids_height rs.
+
+Lemma abs_list_of_reps s f : forall l ns fps, reps s l ns fps -> (roots_height ns <= f)%nat -> abs_list f s l = Some ns.
+Proof.
+  unfold reps, roots_height. induction l as [|a l IH]; intros [|n ns] [|fp fps] H L; simpl in *; try tauto.
+  destruct H as [H1 H2]. rewrite (abs_of_rep s n a fp f H1) by lia. rewrite (IH ns fps H2) by lia. reflexivity.
+Qed.
+
+Lemma prep_abs s p T f : prep s p T -> (roots_height (t_roots T) <= f)%nat ->
+  abs_txn f s (p_root p) (p_size p) (p_maxp p) (p_depth p) = Some T.
+Proof.
+  intros ((rs & fps & Hrs & Hr & _) & Z & P & D) L. unfold abs_txn, abs. rewrite Hrs.
+  rewrite (abs_list_of_reps s f rs _ fps Hr L). destruct T; simpl in *. congruence.
+Qed.
+
+Lemma trep_abs s T f : trep s T -> (roots_height (t_roots T) <= f)%nat ->
+  abs_txn f s (s_root s) (s_size s) (s_maxp s) (s_depth s) = Some T.
+Proof.
+  intros TR L. apply trep_roots in TR. destruct TR as ((rs & fps & Hrs & Hr & _) & Z & P & D).
+  unfold abs_txn, abs. rewrite Hrs. rewrite (abs_list_of_reps s f rs _ fps Hr L). destruct T; simpl in *. congruence.
+Qed.
+
+(* snapshot-taking events are invisible to the pure history *)
+Lemma prun_strip es : forall q, prun q (strip_snaps es) = prun q es.
+Proof.
+  induction es as [|e r IH]; intros q; simpl; auto.
+  destruct e; simpl; auto; try (rewrite IH; reflexivity).
+Qed.
+
+(* outcomes of a history with the entries of the snapshot-taking events dropped *)
+Fixpoint strip_tr {A} (es : list ev) (tr : list A) : list A :=
+  match es, tr with
+  | e :: r, x :: t => if is_snap e then strip_tr r t else x :: strip_tr r t
+  | _, _ => []
+  end.
+
+Lemma pstep_snap q e : is_snap e = true -> fst (fst (pstep q e)) = q.
+Proof. destruct e; simpl; try discriminate; auto. Qed.
+
+Lemma ptrace_strip es : forall q, ptrace q (strip_snaps es) = strip_tr es (ptrace q es).
+Proof.
+  induction es as [|e r IH]; intros q; [reflexivity|].
+  unfold strip_snaps. cbn [filter]. fold (strip_snaps r).
+  cbn [ptrace strip_tr]. destruct (pstep q e) as [[q' out] rm] eqn:E.
+  destruct (is_snap e) eqn:Es; cbn [negb].
+  - pose proof (pstep_snap q e Es) as X. rewrite E in X. simpl in X. subst q'. apply IH.
+  - cbn [ptrace]. rewrite E. f_equal. apply IH.
+Qed.
+
+Definition is_some_txn (o : option txn) : bool := match o with Some _ => true | None => false end.
+
+(* cow_refines_pure, for whole histories: what the heap model computes is what Tree.v computes *)
+Theorem cow_refines_pure_hist evict fuel es :
+  evict_ok evict -> clean evict fuel init_world es ->
+  let w := run evict fuel true init_world es in
+  let q := prun init_pworld es in
+  trace evict fuel init_world es = ptrace init_pworld es /\
+  w_open w = is_some_txn (q_cur q) /\
+  exists f0, forall f, (f0 <= f)%nat ->
+    abs_pub f w = Some (q_pub q) /\
+    match q_cur q with Some T => abs_cur f w = Some T | None => True end.
+Proof.
+  intros Hev C w q.
+  destruct (run_refines evict Hev fuel es init_world init_pworld wrel_init C) as [(_ & PR & _ & CUR) TRC].
+  fold w q in PR, CUR. split; auto.
+  destruct (w_open w) eqn:Eo.
+  - destruct CUR as (T & HT & TR & _). rewrite HT. split; auto.
+    exists (Nat.max (roots_height (t_roots (q_pub q))) (roots_height (t_roots T))). intros f Lf. split.
+    + unfold abs_pub. apply prep_abs; auto. lia.
+    + unfold abs_cur. apply trep_abs; auto. lia.
+  - rewrite CUR. split; auto.
+    exists (roots_height (t_roots (q_pub q))). intros f Lf. split; auto. unfold abs_pub. apply prep_abs; auto.
+Qed.
+
+(* the converse clause of C03: taking snapshots (anywhere) changes neither what later calls answer nor the states they produce *)
+Theorem snapshots_do_not_affect_writes_thm evict fuel es :
+  evict_ok evict -> clean evict fuel init_world es -> clean evict fuel init_world (strip_snaps es) ->
+  let w1 := run evict fuel true init_world es in
+  let w2 := run evict fuel true init_world (strip_snaps es) in
+  trace evict fuel init_world (strip_snaps es) = strip_tr es (trace evict fuel init_world es) /\
+  w_open w1 = w_open w2 /\
+  exists T f0, forall f, (f0 <= f)%nat ->
+    abs_pub f w1 = Some T /\ abs_pub f w2 = Some T /\
+    (w_open w1 = true -> exists Tc, abs_cur f w1 = Some Tc /\ abs_cur f w2 = Some Tc).
+Proof.
+  intros Hev C1 C2 w1 w2.
+  destruct (cow_refines_pure_hist evict fuel es Hev C1) as (T1 & O1 & f1 & A1).
+  destruct (cow_refines_pure_hist evict fuel (strip_snaps es) Hev C2) as (T2 & O2 & f2 & A2).
+  fold w1 in O1, A1. fold w2 in O2, A2. rewrite prun_strip in *.
+  split; [rewrite T2, T1; apply ptrace_strip|]. split; [congruence|].
+  exists (q_pub (prun init_pworld es)), (Nat.max f1 f2). intros f Lf.
+  destruct (A1 f ltac:(lia)) as [P1 Q1]. destruct (A2 f ltac:(lia)) as [P2 Q2]. spl; auto.
+  intros Ho. rewrite Ho in O1. destruct (q_cur (prun init_pworld es)) as [Tc|]; [|discriminate]. eauto.
+Qed.
+
+(* non-vacuity: a concrete clean history with snapshots inside a write transaction *)
+Definition refine_hist : list ev :=
+  [EDirect (WHandle m_get (S2B "/a/b") true 0 0 1); EBegin; EOp (WHandle m_get (S2B "/a/c") true 0 0 2); ESnapIter;
+   EOp (WDelete m_get (S2B "/a/b") true); ESnapClone; EOp (WUpdate m_get (S2B "/a/c") true 0 0 3);
+   EOp (WHandle (S2B "FOO") (S2B "x.y/z") true 0 3 4); EOp (WDelete (S2B "FOO") (S2B "x.y/z") true); ECommit;
+   EDirect (WTruncate [m_get])].
+
+Example clean_example : clean (lru_evict 2) 20 init_world refine_hist /\ clean (lru_evict 2) 20 init_world (strip_snaps refine_hist).
+Proof. split; unfold clean; vm_compute; repeat constructor; simpl; discriminate. Qed.
